@@ -22,7 +22,9 @@ func showPieces(ps []linker.VerifPiece) string {
 func init() {
 	kernels["pieces"] = func(r *gen.Rand, e *emitter, tier string) {
 		for !e.full() {
-			switch r.Intn(3) {
+			switch r.Intn(4) {
+			case 3: // shifts of substituteFinalPaths (generated positions before / after every substituted path)
+				piecesShiftsCase(r, e)
 			case 0: // breakOutputIntoPieces on text with valid, invalid and truncated keys
 				prefix := []string{"ab", "k", "QQ12", "aa", "aab"}[r.Intn(5)]
 				nFiles, nChunks := r.Intn(4), r.Intn(4)
@@ -116,4 +118,73 @@ func init() {
 			}
 		}
 	}
+}
+
+func runesOf(s string) string {
+	rs := []rune(s)
+	if len(rs) == 0 {
+		return "-"
+	}
+	parts := make([]string, len(rs))
+	for i, c := range rs {
+		parts[i] = fmt.Sprint(int(c))
+	}
+	return strings.Join(parts, ",")
+}
+
+// piecesShiftsCase: real substituteFinalPaths on pieces whose data contains line terminators (LF, CR, CR LF also split
+// across a piece boundary, U+2028/2029), astral and other non-ASCII characters, with ASCII and non-ASCII final paths.
+func piecesShiftsCase(r *gen.Rand, e *emitter) {
+	nChunks := 1 + r.Intn(3)
+	paths := make([]string, nChunks)
+	for i := range paths {
+		paths[i] = []string{"a.js", "./b.js", "chunk-ABCDEFGH.js", "dir/x.js", "é.js", "страница-Q2.js", "資産😀.js"}[r.Intn(7)]
+	}
+	pub := []string{"/", "https://cdn/x/", "https://cdn.example/資産/"}[r.Intn(3)]
+	finals := make([]string, nChunks)
+	for i := range finals {
+		j, _, _ := linker.VerifSubstituteAndCount("zz", paths, pub, []linker.VerifPiece{{Kind: 2, Index: uint32(i)}})
+		finals[i] = string(j)
+	}
+	alphabet := []string{"a", "b", ";", "\n", "\r", "\r\n", "\u2028", "\u2029", "é", "😀", " ", "\""}
+	n := 1 + r.Intn(5)
+	ps := make([]linker.VerifPiece, n)
+	ops := make([]string, n)
+	for i := range ps {
+		var sb strings.Builder
+		m := r.Intn(6)
+		for j := 0; j < m; j++ {
+			sb.WriteString(alphabet[r.Intn(len(alphabet))])
+		}
+		if i > 0 && r.Chance(1, 4) { // LF right after a placeholder
+			d := "\n" + sb.String()
+			sb.Reset()
+			sb.WriteString(d)
+		}
+		data := sb.String()
+		ps[i] = linker.VerifPiece{Data: []byte(data)}
+		if i < n-1 {
+			ps[i].Kind = 2
+			ps[i].Index = uint32(r.Intn(nChunks))
+			key := fmt.Sprintf("zzC%08d", ps[i].Index)
+			ops[i] = runesOf(data) + "/" + runesOf(key) + "/" + runesOf(finals[ps[i].Index])
+		} else {
+			ops[i] = runesOf(data) + "/x/x"
+		}
+	}
+	e.stat("shifts")
+	for _, f := range finals {
+		if len(f) != len([]rune(f)) {
+			e.stat("shifts:non-ascii-path")
+			break
+		}
+	}
+	e.emit("shifts\tshifts\t"+strings.Join(ops, " "), guard(func() string {
+		_, _, shifts := linker.VerifSubstituteAndCount("zz", paths, pub, ps)
+		out := make([]string, len(shifts))
+		for i, s := range shifts {
+			out[i] = fmt.Sprintf("%d:%d>%d:%d", s.Before.Lines, s.Before.Columns, s.After.Lines, s.After.Columns)
+		}
+		return strings.Join(out, " ")
+	}))
 }
